@@ -10,6 +10,7 @@ import SqiProps.C18Search
 SEARCH_TMPL = r'''
 import SqiModel.Strategy
 import SqiModel.Mat2
+import SqiModel.Fp2N
 import SqiGen.Tables1
 import SqiGen.Tables3
 import SqiGen.Tables5
@@ -30,6 +31,9 @@ open SqiGen.L{l}
 #eval IO.println s!"L{l} widths32 bad={{diffIdx WIDTH32_all WIDTH64_all}} lens={{WIDTH32_all.length}},{{WIDTH64_all.length}}"
 #eval IO.println s!"L{l} fact p_plus_one={{decide (FP_p + 1 = p_cofactor_for_2f * 2 ^ D_POWER_OF_2)}} p_mod4={{decide (FP_p % 4 = 3)}} one_is_R={{decide (FP_ONE = 2 ^ (64 * D_NWORDS_FIELD) % FP_p)}} TWOpF={{decide (TWOpF = 2 ^ D_POWER_OF_2 ∧ 2 * TWOpFm1 = TWOpF)}} char={{decide (W64.CHARACTERISTIC = (FP_p : Int))}}"
 #eval IO.println s!"L{l} action I2={{Mat2.eqMod (2 ^ D_POWER_OF_2) (Mat2.mul W64.ACTION_I W64.ACTION_I) (Mat2.scalar (-1))}} J2={{Mat2.eqMod (2 ^ D_POWER_OF_2) (Mat2.mul W64.ACTION_J W64.ACTION_J) (Mat2.scalar (-(FP_p : Int)))}} IJ={{Mat2.eqMod (2 ^ D_POWER_OF_2) (Mat2.mul W64.ACTION_I W64.ACTION_J) W64.ACTION_K}} G2={{Mat2.eqMod (2 ^ D_POWER_OF_2) W64.ACTION_GEN2 W64.ACTION_I}} G3={{Mat2.eqMod (2 ^ D_POWER_OF_2) (Mat2.smul 2 W64.ACTION_GEN3) (Mat2.add W64.ACTION_I W64.ACTION_J)}} G4={{Mat2.eqMod (2 ^ D_POWER_OF_2) (Mat2.smul 2 W64.ACTION_GEN4) (Mat2.add (Mat2.scalar 1) W64.ACTION_K)}}"
+#eval IO.println s!"L{l} NQR_TABLE bad={{(W64.NQR_TABLE.zipIdx).filterMap fun (x, i) => if Fp2N.isSquare FP_p x then some i else none}}"
+#eval IO.println s!"L{l} Z_NQR_TABLE bad={{(W64.Z_NQR_TABLE.zipIdx).filterMap fun (z, i) => if Fp2N.isSquare FP_p z && !Fp2N.isSquare FP_p (Fp2N.sub FP_p z (FP_ONE, 0)) then none else some i}}"
+#eval IO.println s!"L{l} BASIS_EVEN bad={{(W64.BASIS_EVEN.zipIdx).filterMap fun (P, i) => if Fp2N.exactOrder2f FP_p W64.CURVE_E0.1 W64.CURVE_E0.2 D_POWER_OF_2 P then none else some i}}"
 end
 '''
 
